@@ -56,8 +56,10 @@ def ref_gradient(c, theta, x0):
     g = np.einsum("ij,ijk->k", d, Sobs)
     g0 = np.einsum("ij,ijk->k", d, S0obs)
     # integrated sensitivities carry an absolute error of the order of the integrator's atol (1e-10): floor of 1e-3 on max|S|
-    scale = float(np.sum(np.abs(d) * (np.maximum(np.max(np.abs(Sobs), axis=2), 1e-3) if c.nP else 0 * d))) + 1e-12
-    scale0 = float(np.sum(np.abs(d) * np.maximum(np.max(np.abs(S0obs), axis=2), 1e-3))) + 1e-12
+    # the floor 1e-2 on the sensitivity magnitude makes the tolerance at least 1e-7 x sum|dloss/dyhat|: the absolute tolerance of the
+    # integrators (1e-8 per step) is all that is left when an observed state does not depend on the parameters (population size N)
+    scale = float(np.sum(np.abs(d) * (np.maximum(np.max(np.abs(Sobs), axis=2), 1e-2) if c.nP else 0 * d))) + 1e-12
+    scale0 = float(np.sum(np.abs(d) * np.maximum(np.max(np.abs(S0obs), axis=2), 1e-2))) + 1e-12
     return {"cost": RL.cost(c.kind, c.y, yhat, c.spread, c.weights), "g": g, "g0": g0, "Sobs": Sobs, "yhat": yhat, "scale": scale, "scale0": scale0}
 
 
